@@ -913,12 +913,9 @@ different result but an ADDITIONAL text block (`text_fallback_iff_no_content`, s
 structured content is appended to the handler's own content whenever it is not an object), "so that
 pre-SEP-2106 clients can recover the structured payload from unstructured content" (server.go, comment in
 `toolForErr`) — at every version, too. The one thing that does depend on the version is the `resultType`
-mark (`result_type_complete_iff`), which C16 does not speak about. -/
-
-/-- the regenerated table: after the tool's handler returned, `(*Server).callTool` assigns no member of
-the result but `Content` (nil ↦ empty). `deliver` transliterates exactly that; a dispatcher that assigns
-`StructuredContent` (seeded change C16-m11) makes this `decide` fail. -/
-theorem dispatcher_assigns_only_content : Generated.TypedTool.callToolAssigns = ["Content"] := by decide
+mark (`result_type_complete_iff`), which C16 does not speak about. That `deliver` is the dispatcher the code
+has is the obligation `dispatcher_assigns_only_content` on the regenerated table (`DispatchTable.lean`) plus the
+structural facts `typedtool.callTool_after_handler_*`. -/
 
 /-- the dispatcher hands the wrapper's outcome on as it is -/
 theorem deliver_out (m : Bool) (o : Outcome) : (deliver m o).out = o := by
